@@ -10,5 +10,7 @@
 //@include inc/uncompact_spec.rs
 //@include inc/uncompact_fns.rs
 //@include inc/compact_spec.rs
+//@include inc/maximal_spec.rs
+//@include inc/compact_refines.rs
 //@include inc/compact_fns.rs
 fn main() {}
